@@ -16,7 +16,7 @@ func init() {
 			"expected values come from the reference model ref.Expect, never from plenc"},
 		Work: c01Work,
 		Post: func(a *mc.Agg) []string {
-			return needDims(a, "pos:top", "pos:field", "pos:elem", "pos:mapval", "pos:mapkey", "pos:ptrfield", "cfg:default", "cfg:both")
+			return needDims(a, "pos:top", "pos:field", "pos:elem", "pos:mapval", "pos:mapkey", "pos:ptrfield", "cfg:default", "cfg:both", "build-order")
 		},
 	})
 }
@@ -34,7 +34,12 @@ func needDims(a *mc.Agg, dims ...string) []string {
 	return errs
 }
 
-func c01Work(c *mc.Ctx) { enumItems(c, withRecursive(ref.Universe(c.Tier)), c01Case) }
+func c01Work(c *mc.Ctx) {
+	enumItems(c, withRecursive(ref.Universe(c.Tier)), c01Case)
+	// the round trip must not depend on which types the instance built before
+	unit := 1 << 20
+	buildOrder(c, &unit, "C01", bytesProbe)
+}
 
 // enumCases walks the whole bounded universe, handing this worker's shard of
 // (configuration, type-in-position, value) cases to f.
